@@ -129,4 +129,5 @@ class Profile:
         pass
 
     # abstract-trace event for coverage accounting
-    FAULT_OPS = ("restart", "crash", "refused", "ro_session", "flush", "toggle_auto", "force_ts")
+    FAULT_OPS = ("restart", "crash", "refused", "ro_session", "flush", "toggle_auto", "force_ts",
+                 "upgrade_experiment", "copy_experiment", "grid_cell", "mode_check", "refused_link")
